@@ -2516,7 +2516,7 @@ func (s *sch) coq() string {
 }
 
 func runC19(c *core.Ctx) {
-	c.Res.Rule = "variant value trees generated at random (depth <= 5, every primitive kind with edge values, strings of length 0,1,62..65,80 with multi-byte UTF-8, names from a small pool shared with the schemas plus empty/long/unicode names) and boundary trees (arrays/objects of 0,1,2,254..257 elements; container payloads of exactly 254..257 and 65534..65537 bytes with 1..3 elements; dictionaries of 255..300 names followed by small objects using the highest ids; dictionary bytes of 254..257 and 65535/65536; sorted and unsorted dictionaries); each tree: variant.Encode bytes == model bytes, Decode(Encode(v)) == v, model decoder on Go's bytes == v, variant.Builder through Value.Write (round trip, metadata == Encode's, value == Encode's when fields arrive in name order, else model decoder), Marshal/Unmarshal of the Go value, and random conforming non-canonical encodings (wider offsets, is_large, long-form strings, shuffled object values, permuted dictionaries) through both decoders. Files: random shredding schemas (all typed leaves, objects, lists, nesting <= 3) and unshredded columns x optional/required x page v1/v2 x typed/raw write x writer/buffer/rows plumbing, several rows with nulls; every row read back typed, raw and converted to unshredded must equal the written value, and the stored leaf columns must equal the model's shredding. Thresholds (bounds.go): array / object children, dictionary names totalling 0xFE..0x101, 0xFFFE..0x10001 and 0xFFFFFF, 0x1000000 (thorough also 0xFFFFFE, 0x1000001) bytes, highest field id 0xFE..0x100 and 0xFFFE..0x10000 (thorough: around 2^24), through Encode and Builder: Go round trip, header bytes == the model's header functions on the sizes, payload == the children, offset-size fields == offset_size_code of the number. Nested (nested.go): the variant column below a repeated group, a LIST, as a repeated node, below an optional group and below repeated-in-optional, variant node required/optional, rows of 0..3 items / absent groups / null items, schemas biased to lists, same write and read combinations, every item compared, leaf columns compared per item as delimited by the stored levels. Non-trivial = container or string at the root (encode cases), every file case; distinct by tree / case text."
+	c.Res.Rule = "variant value trees generated at random (depth <= 5, every primitive kind with edge values, strings of length 0,1,62..65,80 with multi-byte UTF-8, names from a small pool shared with the schemas plus empty/long/unicode names) and boundary trees (arrays/objects of 0,1,2,254..257 elements; container payloads of exactly 254..257 and 65534..65537 bytes with 1..3 elements; dictionaries of 255..300 names followed by small objects using the highest ids; dictionary bytes of 254..257 and 65535/65536; sorted and unsorted dictionaries); each tree: variant.Encode bytes == model bytes, Decode(Encode(v)) == v, model decoder on Go's bytes == v, variant.Builder through Value.Write (round trip, metadata == Encode's, value == Encode's when fields arrive in name order, else model decoder), Marshal/Unmarshal of the Go value, and random conforming non-canonical encodings (wider offsets, is_large, long-form strings, shuffled object values, permuted dictionaries) through both decoders. Files: random shredding schemas (all typed leaves, objects, lists, nesting <= 3) and unshredded columns x optional/required x page v1/v2 x typed/raw write x writer/buffer/rows plumbing, several rows with nulls; every row read back typed, raw and converted to unshredded must equal the written value, and the stored leaf columns must equal the model's shredding. Thresholds (bounds.go): array / object children, dictionary names totalling 0xFE..0x101, 0xFFFE..0x10001 and 0xFFFFFF, 0x1000000 (thorough also 0xFFFFFE, 0x1000001) bytes, highest field id 0xFE..0x100 and 0xFFFE..0x10000 (thorough: around 2^24), through Encode and Builder: Go round trip, header bytes == the model's header functions on the sizes, payload == the children, offset-size fields == offset_size_code of the number. Nested (nested.go): the variant column below a repeated group, a LIST, as a repeated node, below an optional group and below repeated-in-optional, variant node required/optional, rows of 0..3 items / absent groups / null items, schemas biased to lists, same write and read combinations, every item compared, leaf columns compared per item as delimited by the stored levels. Other access paths and layouts (widen.go): every top-level file case and every case below an optional group is also read through the columnar VariantReader (every row rebuilt from cursors: location tags, typed vectors, list offsets, residuals; windows of 1..1000 rows; cursors created before the first Next, or after it followed by SeekToRow(0)) and also written through VariantColumnWriter (WriteValue and BeginRow/Value.Write/EndRow, WriteNullRow) and that file read back typed, raw, converted and columnar; writer options: typed leaves (or every column) dictionary encoded, DictionaryMaxBytes 8..1024, pages of 64..1024 bytes; many-row files (40..300 rows) whose chunks start with dictionary pages and continue PLAIN (recorded per case); decimal16 leaves in the layouts of other writers (FIXED_LEN_BYTE_ARRAY(n) for every n from the least that holds the precision to 15, BYTE_ARRAY of minimal and padded length; rows shredded by the library, leaf values re-laid out and stored through the row API; corpus over precisions x widths x {leaf, object field, list element} with -1, the bounds of the precision and values around every sign-byte boundary, and in the random schemas), read typed, raw, converted, columnar, the model reader run on the re-laid-out fragment and the stored leaf columns compared with it; convert-to-unshredded through reader schemas that drop sibling columns of the file, add columns the file lacks (one leaf, required or optional, or a group of two leaves; names sorting before and after the variant column), list group fields out of name order (file side and reader side) and flip the variant column between required and optional, at the top level and inside the enclosing group of every nested placement, through parquet.NewReader(schema) and Convert+ConvertRowGroup: every item must be the value written, kept columns must hold what was written, added columns nothing. Non-trivial = container or string at the root (encode cases), every file case; distinct by tree / case text."
 	g := &gen{c: c, names: []string{"a", "b", "c", "d", "e"}}
 	var vmEnc, vmShred []string
 
@@ -2683,6 +2683,7 @@ func runC19(c *core.Ctx) {
 		reach.colReads, reach.colReadsLate, reach.colWrites, reach.foreignFiles, reach.narrowLeaves, reach.narrowNegativeLeaves, reach.evolved, reach.evolvedNested, reach.addedBefore, reach.droppedBefore, reach.reordered)
 	c.Note("float32 values are generated without signalling NaNs: variant.Value keeps a float32 as float64 and the conversion quiets them (hardware behaviour; stated assumption)")
 	c.Note("typed writes use only kinds with a Go-native mapping (variant.ValueOf); dates, times, *_ntz timestamps and decimals enter through raw writes")
+	c.Note("the columnar VariantColumnWriter / VariantReader do not reach variant columns below a repeated field (resolveVariantColumn rejects them): exercised at the top level and below an optional group; VariantColumnWriter cannot write an absent enclosing group: those rows are written by the row API only")
 }
 
 func replayC19(c *core.Ctx, raw json.RawMessage) {
